@@ -1354,7 +1354,7 @@ impl<'tcx> Interp<'tcx> {
     /// describe a byte-slice argument being absorbed by a hash
     pub fn describe_bytes(&self, st: &State, v: &Val) -> Absorb {
         match v {
-            Val::Opq(Opaque::Digest { kind, len, taint, .. }) => Absorb { src: format!("digest<{}>", kind), len_lo: *len as i128, len_hi: *len as i128, consts: None, taint: *taint, taint_all: *taint, whole: false, lin: None },
+            Val::Opq(Opaque::Digest { kind, len, taint, .. }) => Absorb { src: format!("digest<{}>", kind), len_lo: *len as i128, len_hi: *len as i128, consts: None, taint: *taint, taint_all: *taint, whole: false, lin: None, tag: None },
             _ => match self.slice_elems(st, v) {
                 Some((b, s, l)) => {
                     let mut src = self.describe_ptr(&b);
@@ -1421,9 +1421,13 @@ impl<'tcx> Interp<'tcx> {
                         },
                         _ => false,
                     };
-                    Absorb { src, len_lo: l.lo, len_hi: l.hi, consts, taint, taint_all, whole, lin }
+                    let tag = match (s.is_const(), l.is_const()) {
+                        (Some(s0), Some(nn)) if nn > 0 => self.source_tag(st, &b, s0, nn),
+                        _ => None,
+                    };
+                    Absorb { src, len_lo: l.lo, len_hi: l.hi, consts, taint, taint_all, whole, lin, tag }
                 }
-                None => Absorb { src: format!("?{}", v.short()), len_lo: 0, len_hi: i128::MAX, consts: None, taint: 3, taint_all: 0, whole: false, lin: None },
+                None => Absorb { src: format!("?{}", v.short()), len_lo: 0, len_hi: i128::MAX, consts: None, taint: 3, taint_all: 0, whole: false, lin: None, tag: None },
             },
         }
     }
@@ -1453,6 +1457,7 @@ pub fn absorbed_json(v: &[Absorb]) -> String {
         o.set("taint", J::i(a.taint));
         o.set("taint_all", J::i(a.taint_all));
         o.set("whole", J::Bool(a.whole));
+        o.set("tag", match &a.tag { Some(t) => J::s(t.clone()), None => J::Null });
         o
     }).collect()).to_string()
 }
